@@ -119,8 +119,11 @@ impl DeepClone for b::TermId {
                     }
                 }
             }
-            | b::Term::Sealed(_term) => {
-                unreachable!()
+            | b::Term::Sealed(term) => {
+                // `define` can occur inside a cloned annotation or parameter
+                // (`let f (x : define T = _ in T) : _ = ...`).
+                let b::Sealed(inner) = term;
+                b::Sealed(inner.deep_clone(desugarer)).into()
             }
             | b::Term::Ann(term) => {
                 let b::Ann { tm, ty } = term;
